@@ -38,7 +38,7 @@ def generate(rng, tier):
         if all(b == 1 for b in bins):
             bins[0] = divisors(shape[0])[-1]
         op = rng.choice(["sum", "mean", "nansum", "nanmean", "prod", "sum", "mean"])
-        mk = rng.choice(["none", "none", "false", "true", "alltrue", "random", "random"])
+        mk = rng.choice(["none", "none", "false", "true", "alltrue", "allfalse", "random", "random"])
         nans = []
         if rng.random() < (0.6 if op.startswith("nan") else 0.1):
             nans = [i for i in range(size) if rng.random() < 0.25]
@@ -46,7 +46,7 @@ def generate(rng, tier):
                 nans.append(0)
         yield {"shape": shape, "bins": bins, "op": op, "mask": mk,
                "bits": [rng.random() < 0.4 for _ in range(size)] if mk == "random" else None,
-               "data": [rng.randint(1, 4) for _ in range(size)], "sig": [rng.randint(1, 3) for _ in range(size)],
+               "data": [rng.randint(1, 4) for _ in range(size)], "sig": [rng.randint(0, 3) for _ in range(size)],
                "nans": sorted(nans), "kind": rng.choice(["std", "std", "var", "var", "unknown", "absent"]),
                "ignores": rng.random() < 0.4, "spy": rng.random() < 0.12, "wseed": rng.randrange(10**6)}
 
@@ -66,6 +66,8 @@ def build(case):
         mask = mk == "true"
     elif mk == "alltrue":
         mask = np.ones(shape, dtype=bool)
+    elif mk == "allfalse":
+        mask = np.zeros(shape, dtype=bool)
     else:
         mask = np.array(case["bits"], dtype=bool).reshape(shape)
     k = case["kind"]
